@@ -93,10 +93,13 @@ type CallSite struct {
 // role of an assert statement), placed after the last instruction of the source line whose trimmed text is Anchor.
 type Cut struct {
 	Anchor string
+	AnchorWas string // the anchor as written, when it was re-placed on a resembling line (rename.go)
 	Cl     *Clause
 	Hard   bool // "cut" instead of "assert": what follows is proved from the entry facts and this assertion only
 	Use    bool // "use": a lemma instantiation at this point (its requires are obligations, its ensures assumptions)
 	Let    string // "let NAME = expr": ghost snapshot of a value at this point
+	Claim  bool   // "claim": an assertion that carries part of the property (not just a proof step): if it cannot be placed
+	// (its anchor is gone and no line of the function resembles it) that is reported, not skipped
 }
 
 func (c *Contract) ModifiesNothing() bool { return len(c.Modifies) == 0 && !c.ModifiesAll }
@@ -127,7 +130,7 @@ func clauseTexts(cs []*Clause) string {
 
 var clauseRe = regexp.MustCompile(`^(requires|ensures|invariant|modifies|decreases|let|loop|split|trusted|inlines|inline|unroll|pure|noalloc|retains|use|results|after|callsite)\b(\[[^\]]*\])?\s*(.*)$`)
 var callsiteRe = regexp.MustCompile(`^(\S+)\s+assert(\[[^\]]*\])?\s+(.*)$`)
-var afterRe = regexp.MustCompile("^`([^`]*)`\\s+(assert|cut|use|let)(\\[[^\\]]*\\])?\\s+(.*)$")
+var afterRe = regexp.MustCompile("^`([^`]*)`\\s+(assert|claim|cut|use|let)(\\[[^\\]]*\\])?\\s+(.*)$")
 
 // parseContractFile reads //@ blocks from a file. pkgName qualifies unqualified keys.
 var macros = map[string]*Macro{} // key: pkgPath + "." + name
@@ -263,7 +266,7 @@ func parseContractFile(path, pkgName, pkgPath string) ([]*Contract, error) {
 			}
 			c := &Clause{Label: strings.Trim(am[3], "[]"), Text: am[4], Where: where}
 			last = c
-			ct := &Cut{Anchor: strings.TrimSpace(am[1]), Cl: c, Hard: am[2] == "cut", Use: am[2] == "use"}
+			ct := &Cut{Anchor: strings.TrimSpace(am[1]), Cl: c, Hard: am[2] == "cut", Use: am[2] == "use", Claim: am[2] == "claim"}
 			if am[2] == "let" {
 				i := strings.Index(c.Text, "=")
 				if i < 0 {
